@@ -147,6 +147,17 @@ impl<T: Float, B: AutodiffBackend> GradientTarget<T, B> for BoxN {
         Tensor::<B, 1>::zeros([1], &x.device()).mask_fill(outside, f32::NEG_INFINITY)
     }
 }
+/// The box evaluated on the host: the log-density is a tensor built from data (an untracked leaf).
+#[derive(Clone)]
+pub struct BoxLeafN;
+impl<T: Float + burn::tensor::Element, B: AutodiffBackend> GradientTarget<T, B> for BoxLeafN {
+    fn unnorm_logp(&self, x: Tensor<B, 1>) -> Tensor<B, 1> {
+        let dev = x.device();
+        let v: Vec<f64> = x.into_data().convert::<f64>().to_vec::<f64>().unwrap();
+        let lp = if v.iter().all(|t| *t > 0.0 && *t < 1.0) { 0.0 } else { f64::NEG_INFINITY };
+        Tensor::<B, 1>::from_data(TensorData::new(vec![lp], [1]), &dev)
+    }
+}
 #[derive(Clone)]
 pub struct SqrtLineN;
 impl<T: Float, B: AutodiffBackend> GradientTarget<T, B> for SqrtLineN {
